@@ -2,7 +2,8 @@
 
 M: TLC model-checks spec/Tunnel.tla (Integrity, NoForeignUnit) at small constants.
 G: real iodine + real iodined through a relay, configurations x packets x fault schedules.
-B: every iteration of the real server's loop in those runs must be a step of Tunnel.tla (TraceTunnelSrv, drift only).
+B: every iteration of the real server's and the real client's loop in those runs must be a step of Tunnel.tla
+   (TraceTunnelSrv / TraceTunnelCli, drift only).
 T: every tun write of every run is judged by TLC against spec/MonIntegrity.tla.
 """
 import json
@@ -71,9 +72,9 @@ def specs(tier, seed):
 
 
 def _run(spec):
-    r = runs.execute(spec, want=("C01", "TSRV"))
+    r = runs.execute(spec, want=("C01", "TSRV", "TCLI"))
     return {"label": spec.get("label"), "spec": spec, "events": r["mon"].get("C01", []), "stats": r["stats"],
-            "TSRV": r["mon"].get("TSRV"),
+            "TSRV": r["mon"].get("TSRV"), "TCLI": r["mon"].get("TCLI"),
             "fabricated": r.get("fabricated"), "san": bool(r["san"]), "hang": r["hang"], "error": r["error"]}
 
 
